@@ -1,4 +1,6 @@
 import LcmProofs.Laws
+import LcmProofs.Degenerate
+import LcmProps.C10
 import LcmProofs.FiniteHorizon
 import LcmProofs.AffineInstance
 import LcmProofs.StationarySolve
@@ -196,5 +198,63 @@ def Ex.consParams0 : Params := { Ex.consParams with beta := 0 }
   (((solve Ex.consModel Ex.consParams0).getD t default).toFlat
     == (solvePeriod Ex.consModel Ex.consParams0 (groups Ex.consModel) t (mkSpace Ex.consModel Ex.consParams0 (groups Ex.consModel) t) none).toFlat)
 #guard solveDiag Ex.consModel Ex.consParams0 == [0, 0, 0]   -- no feasible state-choice pair has an undefined objective
+
+/-! ## degenerate transition rows -/
+
+/-- **the objective of one state-choice combination**: with a one-hot row for the stochastic state `x` (at the label the
+deterministic transition of `m'` returns) the expectation over the product of label grids equals the value at the single
+node - provided the continuation is defined at every node (`NodesDefined`: the supported class; on a `-inf` entry the
+implementation computes `0 * -inf = nan` where the deterministic specification is fine) -/
+theorem C11_degenerate_objective {m m' : Model} {P : Params} {x : Name} (h : DegenerateTo m m' P x) (g : Groups) (t : Nat)
+    (V : Tensor Ext) (feas : List (List (Name × Rat))) (hdef : NodesDefined m P g t V feas) (env0 : Env) :
+    uAndF m' P g t (some (V, feas)) env0 = uAndF m P g t (some (V, feas)) env0 :=
+  h.uAndF g t V feas hdef env0
+
+/-- **C11, degenerate stochastic state = deterministic transition, every period of the executable `solve`** -/
+theorem C11_degenerate_solve {m m' : Model} {P : Params} {x : Name} (h : DegenerateTo m m' P x)
+    (hdef : ∀ t, t + 1 < m.nPeriods →
+      NodesDefined m P (groups m) t ((solve m P true).getD (t + 1) default) (mkSpace m P (groups m) (t + 1)).feas)
+    (t : Nat) (ht : t < m.nPeriods) :
+    (solve m' P true).getD t default = (solve m P true).getD t default := by
+  have := solve_degenerate h hdef (m.nPeriods - 1 - t) (by omega)
+  have e : m.nPeriods - 1 - (m.nPeriods - 1 - t) = t := by omega
+  rwa [e] at this
+
+/-- the arithmetic core: the weighted sum over the nodes collapses to the node of the one -/
+theorem C11_onehot_expectation (x : Name) (row : List Rat) (ℓ : Nat) (hoh : OneHot row ℓ) (W' : List (Name × List Rat))
+    (K : List (Name × Rat) → Option Rat) (hK : ∀ p ∈ nodesOf ((x, row) :: W'), (K p.1).isSome = true) :
+    seqSum ((nodesOf ((x, row) :: W')).map (gK K)) = seqSum ((nodesOf W').map (gK fun a => K ((x, (ℓ : Rat)) :: a))) :=
+  onehot_nodes_sum x row ℓ hoh W' K hK
+
+namespace Ex
+/-- `stochModel` with degenerate rows for `h`: from `h = 0` to label 1, from `h = 1` to label 1 -/
+def degParams : Params :=
+  { stochParams with shocks := stochParams.shocks.map fun (xs : Name × Tensor Rat) =>
+      if xs.1 == "h" then ("h", { shape := [2, 2], get := fun idx => ([0, 1, 0, 1] : List Rat).getD (ravel [2, 2] idx) 0 }) else xs }
+/-- the deterministic counterpart: `next_h = 1` -/
+def detModel : Model :=
+  { stochModel with functions := stochModel.functions.map fun f =>
+      if f.name == "next_h" then { f with body := .num 1, stochastic := false } else f }
+end Ex
+
+-- a test of the statement on one pair of specifications (the semantic hypotheses `DegenerateTo` / `NodesDefined` are
+-- evaluated at the grid environments below, not proved for all environments)
+#guard ((solve Ex.detModel Ex.degParams).map fun V => (V.shape, V.toFlat))
+  == ((solve Ex.stochModel Ex.degParams).map fun V => (V.shape, V.toFlat))
+#guard ((solve Ex.stochModel Ex.degParams).map fun V => (V.shape, V.toFlat))
+  != ((solve Ex.stochModel Ex.stochParams).map fun V => (V.shape, V.toFlat))
+#guard (assignments [("h", [0, 1]), ("p", [0, 1, 2]), ("d", [0, 1])]).all fun a =>
+  let env := toEnv a ++ periodEnv 0
+  match detOf Ex.stochModel Ex.degParams env, wrowsOf Ex.stochModel Ex.degParams env,
+        detOf Ex.detModel Ex.degParams env, wrowsOf Ex.detModel Ex.degParams env with
+  | some d, some W, some d', some W' =>
+      d == [] && (W.map (·.1)) == ["h", "p"] && ((W.find? (·.1 == "h")).map (·.2)) == some [0, 1]
+        && (d'.map fun p => (p.1, p.2.toRat)) == [("h", 1)] && (W'.map (·.1)) == ["p"]
+        && (W'.find? (·.1 == "p")).map (·.2) == (W.find? (·.1 == "p")).map (·.2)
+  | _, _, _, _ => false
+example : OneHot [0, 1] 1 := ⟨by decide, by
+  intro l hl
+  have : l = 0 ∨ l = 1 := by simp at hl; omega
+  rcases this with rfl | rfl <;> simp⟩
 
 end Lcm
